@@ -197,6 +197,10 @@ fn explore_from<T: Transformation<M>>(
         let ro = RefOptions { maxdepth: cfg.maxdepth, mindepth: 0, max_energy_error: 1000.0, dim };
         let refr = match reference(&rec, &answers, &ro) {
             Ok(r) => r,
+            Err(crate::common::rnuts::RefErr::IllConditioned(..)) => {
+                res.ill_conditioned += 1;
+                return;
+            }
             Err(e) => {
                 failed = Some((format!("C01/differs-from-reference-nuts/{key}"), format!("{e:?}"), replay));
                 return;
